@@ -154,7 +154,16 @@ def extract(config, repo=None, quiet=True):
     return out
 
 
+_SERDE_ALIAS = None
+
+
 def load(config, repo=None):
+    """Load the fact file.  rustc prints serde items through the first *visible* path, which in
+    this crate is a derive's hidden `extern crate serde as _serde` (e.g.
+    `budget::_::_serde::de::Visitor`); canonicalise those to `serde::…`."""
+    import re
     p = extract(config, repo)
     with open(p) as fh:
-        return json.load(fh)
+        text = fh.read()
+    text = re.sub(r"(?:[A-Za-z_][A-Za-z_0-9]*::)+_::_serde::", "serde::", text)
+    return json.loads(text)
